@@ -61,6 +61,8 @@ def check(cx, facts, rep):
     cx._param_models = models
     from . import c13_flags
     c13_flags.check(cx, facts, rep, models)
+    from .helpers import check_type_with_meta
+    check_type_with_meta(cx, rep)
     rep.floor('PARAM', 100, '(30 parameter arms × 5 clauses + form arms)')
 
 
